@@ -330,6 +330,53 @@ def document_from_attached(run: Run, stream):
                                              "before": before, "after": after})
 
 
+def root_sibling_containers(run: Run, stream):
+    """Document.prologue / Document.epilogue: out-of-range insert positions raise, text and tag nodes are refused, a
+    comment that lives elsewhere is refused - and the document (and the offered node's tree) stay as they were
+    (seeded C09-9: insert() appending silently for positions beyond the end)"""
+    import trees
+    from delb import Document, altered_default_filters, new_comment_node, new_processing_instruction_node, new_tag_node
+
+    rng = run.rng
+    for _ in range(24):
+        pro = [rng.choice(["<!--p%d-->" % i, "<?pi p%d?>" % i]) for i in range(rng.choice([0, 0, 1, 2, 3]))]
+        epi = [rng.choice(["<!--e%d-->" % i, "<?pi e%d?>" % i]) for i in range(rng.choice([0, 0, 1, 2, 3]))]
+        xml = "".join(pro) + "<root><a/>t</root>" + "".join(epi)
+        doc = Document(xml)
+        which = rng.choice(["prologue", "epilogue"])
+        cont = getattr(doc, which)
+        n = len(pro if which == "prologue" else epi)
+        kind = rng.choice(["index", "index", "index", "text", "tag", "attached"])
+        other = Document("<!--o--><o><!--in--></o>")
+        with altered_default_filters():
+            if kind == "index":
+                offered, index = rng.choice([new_comment_node("new"), new_processing_instruction_node("new", "x")]), n + rng.choice([1, 2, 5])
+            elif kind == "text":
+                offered, index = "text", rng.randint(0, n)
+            elif kind == "tag":
+                offered, index = new_tag_node("t"), rng.randint(0, n)
+            else:
+                offered, index = rng.choice([other.prologue[0], other.root[0]]), rng.randint(0, n)
+            case = {"sub": ["containers", xml], "attempt": {"why": kind, "op": which + ".insert", "index": index, "len": n}}
+            before, before_other = str(doc), str(other)
+            raised = None
+            try:
+                cont.insert(index, offered)
+            except Exception as e:  # noqa: BLE001
+                raised = type(e).__name__
+            after, after_other = str(doc), str(other)
+        run.case(stream, case, True)
+        run.count("attempt", "container-insert:" + kind + ":" + (raised or "accepted"))
+        if raised is None:
+            run.violation(stream, case, {"why": f"{which}.insert({index}, …) with {n} nodes / an offered {kind} node was not rejected",
+                                         "before": before, "after": after})
+        elif before != after or before_other != after_other:
+            run.violation(stream, case, {"why": f"rejected {which}.insert changed a document", "before": [before, before_other],
+                                         "after": [after, after_other]})
+        elif not isinstance(offered, str) and kind in ("index", "tag") and (offered.parent is not None or offered.document is not None):
+            run.violation(stream, case, {"why": "the offered node of a rejected insert is attached somewhere"})
+
+
 def guard_request(mirror: E.Mirror, a):
     c = dict(a)
     if c["op"] in ("new_comment", "comment_content"):
@@ -426,6 +473,7 @@ def check(run: Run, lean: dict) -> int:
         sibling_attached_attempts(run, "siblings")
         root_history_attempts(run, "root-history")
     document_from_attached(run, "document-from-attached")
+    root_sibling_containers(run, "root-sibling containers")
     if ok and rows:
         for (case, req, raised, known), m in zip(rows, run_driver([r[1] for r in rows])):
             if "driver_error" in m:
